@@ -354,6 +354,7 @@ pub fn run(seed: u64, n: usize, sink: &mut Sink) {
     { let mut rt = Rng::new(seed ^ 0xC11_71ED); timed_walk_cases(&mut rt, (n / 120).max(4), sink); }
     let n = n - n_full;
     let mut made = 0usize; let mut t = 0usize;
+    let mut fleet: Vec<SpeedLimitTrainSim> = vec![];
     while made < n {
         let use_default = t % 5 == 4;
         // every seventh run (set-speed) carries a hybrid locomotive: outside the Coq model, oracle only
@@ -472,6 +473,33 @@ pub fn run(seed: u64, n: usize, sink: &mut Sink) {
                 input: json!({"consist_yaml": serde_yaml::to_string(&con).unwrap_or_default(), "days": days}),
                 oracle_fail: fails, known: vec![], in_domain: true });
         }
+        if let Some(s) = &sim.lim { if fleet.len() < 12 { fleet.push(s.clone()); } }
         t += 1;
+    }
+    // fleet level (SpeedLimitTrainSimVec): every trip output of a set of simulations is the IN-ORDER sum of its members' own
+    // outputs - members annualised with their own simulation_days, and the sum bit-identical whatever the worker count
+    for (j, chunk) in fleet.chunks(4).enumerate() {
+        if chunk.len() < 2 { continue; }
+        let v = SpeedLimitTrainSimVec(chunk.to_vec());
+        let mut fails = vec![];
+        for ann in [true, false] {
+            let want_f = chunk.iter().fold(0.0, |a, s| a + s.get_energy_fuel(ann).value);
+            let want_r = chunk.iter().fold(0.0, |a, s| a + s.get_net_energy_res(ann).value);
+            let want_k = chunk.iter().fold(0.0, |a, s| a + s.get_kilometers(ann));
+            let want_m = chunk.iter().fold(0.0, |a, s| a + s.get_megagram_kilometers(ann));
+            for threads in [1usize, 3, 8] {
+                let pool = rayon::ThreadPoolBuilder::new().num_threads(threads).build().expect("pool");
+                let (gf, gr, gk, gm) = pool.install(|| (v.get_energy_fuel(ann).value, v.get_net_energy_res(ann).value, v.get_kilometers(ann), v.get_megagram_kilometers(ann)));
+                for (what, got, want) in [("fuel", gf, want_f), ("net battery energy", gr, want_r), ("kilometres", gk, want_k), ("megagram-kilometres", gm, want_m)] {
+                    if got.to_bits() != want.to_bits() && !(got == want) {
+                        fails.push(format!("fleet {} (annualize={}, {} worker(s)): {} is not the in-order sum of the members' own outputs {}", what, ann, threads, got, want));
+                    }
+                }
+            }
+        }
+        fails.dedup();
+        let mut o = Outs::new(); o.z("members", chunk.len() as i64);
+        sink.put(Case { id: format!("fleet/{}", j), kind: "fleet_trip_outputs".into(), coq: String::new(), outcome: Outcome::Ok(o),
+            tags: vec![format!("members:{}", chunk.len())], input: json!({"members": chunk.len()}), oracle_fail: fails.into_iter().take(4).collect(), known: vec![], in_domain: true });
     }
 }
